@@ -1470,6 +1470,14 @@ class Qobj:
         if bra.type not in ('bra', 'ket') or ket.type not in ('bra', 'ket'):
             msg = "Can only calculate matrix elements between a bra and a ket."
             raise TypeError(msg)
+        if (
+            (bra._dims[0] if bra.isket else bra._dims[1]) != self._dims[0]
+            or (ket._dims[0] if ket.isket else ket._dims[1]) != self._dims[1]
+        ):
+            raise TypeError(
+                "incompatible dimensions " + str(bra.dims) + ", "
+                + str(self.dims) + " and " + str(ket.dims)
+            )
         left, op, right = bra.data, self.data, ket.data
         if ket.isbra:
             right = right.adjoint()
@@ -1511,6 +1519,17 @@ class Qobj:
         ):
             msg = "only bras, kets and density matrices have defined overlaps"
             raise TypeError(msg)
+        spaces = [
+            (q._dims[0], q._dims[0]) if q.isket
+            else (q._dims[1], q._dims[1]) if q.isbra
+            else (q._dims[0], q._dims[1])
+            for q in (self, other)
+        ]
+        if spaces[0] != spaces[1]:
+            raise TypeError(
+                "incompatible dimensions " + str(self.dims)
+                + " and " + str(other.dims)
+            )
         left, right = self._data.adjoint(), other.data
         if self.isoper or other.isoper:
             if not self.isoper:
